@@ -457,3 +457,89 @@ func (c *Ctx) forwardsOrHashable(dt *core.DynTypes, g *ssa.Function, resIdx int,
 	}
 	return ""
 }
+
+// R-KEYKINDS (C09): the key kinds the map constructors accept (the TypeID gate in front of every store to
+// MapSchema.KeysValue) must all be describable: each must be a member of the meta-schema's map-key one-of (the "keys"
+// row of the Map object). A kind the constructors accept but the meta-schema does not list makes SelfSerialize fail for
+// a perfectly constructible map schema.
+func (c *Ctx) ruleKeyKinds(rule string) {
+	allowed, _, ok := c.mapKeyGate()
+	if !ok {
+		// mapKeyGate fails when the meta row allows MORE than the constructors; that direction is R-HASHKEY's. Recompute
+		// the constructor side alone.
+		allowed = c.constructorKeyKinds()
+	}
+	if len(allowed) == 0 {
+		c.R.Unresolved(rule, "TypeID gate in front of the stores to MapSchema.KeysValue")
+		return
+	}
+	var table map[string]string
+	for _, mo := range c.metaObjects(rule) {
+		if !strings.Contains(typeStr(mo.typ), "MapSchema[") {
+			continue
+		}
+		pc, isCall := c.resolveInit(mo.props["keys"], 0).(*ssa.Call)
+		if !isCall || calleeOriginName(pc) != "NewPropertySchema" {
+			continue
+		}
+		if t, ok := c.oneOfTable(pc.Call.Args[0]); ok {
+			table = t
+		}
+	}
+	if table == nil {
+		c.R.Unresolved(rule, "the \"keys\" row of the Map meta object")
+		return
+	}
+	for _, kind := range sortedKeys(allowed) {
+		k := key(rule, "meta object Map", "key kind \""+kind+"\" accepted by the constructors is describable")
+		if _, ok := table[kind]; ok {
+			c.R.Ok(rule, k, "-", "map key kind", "listed in the meta-schema's map-key one-of")
+		} else {
+			c.R.Bad(rule, k, "-", "the map constructors accept key kind \""+kind+"\" but the meta-schema's map-key one-of does not list it",
+				"a map schema with such keys describes itself (SelfSerialize) in a form the meta-schema rejects ('Invalid type for one-of schema'), so it cannot be carried in the ATP hello message")
+		}
+	}
+}
+
+// constructorKeyKinds: the TypeID constants compared in front of the stores to MapSchema.KeysValue.
+func (c *Ctx) constructorKeyKinds() map[string]bool {
+	allowed := map[string]bool{}
+	for _, fn := range c.M.SortedFuncs(c.scopeAll()) {
+		stores := false
+		for _, b := range fn.Blocks {
+			for _, in := range b.Instrs {
+				if st, ok := in.(*ssa.Store); ok {
+					if fa, ok := st.Addr.(*ssa.FieldAddr); ok {
+						stT, _ := derefType(fa.X.Type()).Underlying().(*types.Struct)
+						if stT != nil && stT.Field(fa.Field).Name() == "KeysValue" && strings.Contains(typeStr(derefType(fa.X.Type())), "MapSchema") {
+							stores = true
+						}
+					}
+				}
+			}
+		}
+		if !stores {
+			continue
+		}
+		for _, b := range fn.Blocks {
+			for _, in := range b.Instrs {
+				bo, ok := in.(*ssa.BinOp)
+				if !ok || bo.Op != token.EQL {
+					continue
+				}
+				for _, side := range []ssa.Value{bo.X, bo.Y} {
+					if call, ok := side.(*ssa.Call); ok && call.Call.IsInvoke() && call.Call.Method.Name() == "TypeID" {
+						other := bo.Y
+						if side == bo.Y {
+							other = bo.X
+						}
+						if s, ok := core.ConstString(other); ok {
+							allowed[s] = true
+						}
+					}
+				}
+			}
+		}
+	}
+	return allowed
+}
